@@ -244,6 +244,17 @@ fn ultra_strategy(ki: usize) -> impl Fn(Tier) -> BoxedStrategy<Case> + Send + Sy
     }
 }
 
+/// fz_single: kind, N, parameter, M, scalar, stream
+pub fn fuzz_decode(u: &mut arbitrary::Unstructured) -> Option<(String, Case)> {
+    let ki = u.int_in_range(0..=KINDS.len() - 1).ok()?;
+    let (kind, name, min_n) = KINDS[ki];
+    let n = min_n + u.int_in_range(0..=19usize).ok()?;
+    let (p, m) = (u.int_in_range(0..=29usize).ok()?, 1 + u.int_in_range(0..=8usize).ok()?);
+    let exact = u.int_in_range(0..=1u8).ok()? == 0;
+    let xs = crate::fuzzdec::stream(u, false, 200);
+    Some((format!("C11/{name}/definition/{}", if exact { "Q" } else { "f64" }), Case { spec: Some(mk(kind, n, p, m)), xs, ints: vec![ki as i64, n as i64, p as i64, m as i64], a: Rat(1, 1), ..Default::default() }))
+}
+
 pub fn clauses() -> Vec<Clause> {
     let mut v = vec![];
     for (ki, (kind, name, min_n)) in KINDS.iter().enumerate() {
